@@ -34,6 +34,8 @@ pub struct Observed {
     pub counters: BTreeMap<&'static str, u64>,
     pub faults_fired: u64,
     pub alloc_count: u32,
+    /// message of a panic caught during the run
+    pub panic: Option<String>,
 }
 
 pub fn fault_count(c: &BTreeMap<&'static str, u64>) -> u64 {
@@ -44,15 +46,18 @@ pub fn fault_count(c: &BTreeMap<&'static str, u64>) -> u64 {
 }
 
 /// Runs the script; `env` may inject environment events before each step.
+/// A panic anywhere in the simulated system is caught and reported in
+/// `Observed::panic`; the decision log and history up to that point are kept so
+/// that the run can be replayed.
 pub fn run_script_with(
     spec: &ScriptSpec,
     cfg: &SimConfig,
     decider: Decider,
     setup: impl FnOnce(&mut World),
     env: impl FnMut(&mut Sim, u64) -> bool,
-) -> Result<Observed, String> {
-    crate::sim::catch(|| {
-        let mut w = World::new(cfg.clone(), decider);
+) -> Observed {
+    let mut w = World::new(cfg.clone(), decider);
+    let result = crate::sim::catch(|| {
         for (path, content, mode) in &spec.files {
             w.put_file(path, content, *mode);
         }
@@ -73,24 +78,33 @@ pub fn run_script_with(
             },
             probes::virtual_probes(),
         );
-        let outcome = w.sim.run(env);
-        let counters = w.sim.ctl.counters.borrow().clone();
-        Observed {
-            stdout: String::from_utf8_lossy(&w.stdout()).into_owned(),
-            stderr: String::from_utf8_lossy(&w.stderr()).into_owned(),
-            status: w.exit_status_of(Pid(2)).unwrap_or_default(),
-            files: w.tree("/work"),
-            history: std::mem::take(&mut *w.sim.ctl.history.borrow_mut()),
-            decisions: w.sim.decisions(),
-            faults_fired: fault_count(&counters),
-            alloc_count: w.sim.ctl.alloc_count(),
-            counters,
-            outcome,
+        w.sim.run(env)
+    });
+    let counters = w.sim.ctl.counters.borrow().clone();
+    let mut obs = Observed {
+        history: std::mem::take(&mut *w.sim.ctl.history.borrow_mut()),
+        decisions: w.sim.decisions(),
+        faults_fired: fault_count(&counters),
+        alloc_count: w.sim.ctl.alloc_count(),
+        counters,
+        ..Default::default()
+    };
+    match result {
+        Ok(outcome) => {
+            obs.stdout = String::from_utf8_lossy(&w.stdout()).into_owned();
+            obs.stderr = String::from_utf8_lossy(&w.stderr()).into_owned();
+            obs.status = w.exit_status_of(Pid(2)).unwrap_or_default();
+            obs.files = w.tree("/work");
+            obs.outcome = outcome;
         }
-    })
+        Err(p) => obs.panic = Some(p),
+    }
+    // Dropping a world whose run panicked may panic again; contain it.
+    let _ = crate::sim::catch(move || drop(w));
+    obs
 }
 
-pub fn run_script(spec: &ScriptSpec, cfg: &SimConfig, decider: Decider) -> Result<Observed, String> {
+pub fn run_script(spec: &ScriptSpec, cfg: &SimConfig, decider: Decider) -> Observed {
     run_script_with(spec, cfg, decider, |_| {}, |_, _| true)
 }
 
@@ -123,4 +137,43 @@ pub fn obs_digest(o: &Observed) -> u64 {
         d = fnv_combine(d, ((dec.tag as u64) << 40) ^ ((dec.n as u64) << 20) ^ dec.v as u64);
     }
     d
+}
+
+/// Violation triple (class, key, detail).
+pub type Viol = (String, String, String);
+
+/// Checks common to all whole-shell properties: no panic, no budget
+/// exhaustion, no deadlock (every process finished).
+pub fn check_liveness(obs: &Observed) -> Option<Viol> {
+    if let Some(p) = &obs.panic {
+        let site = p.split('@').next_back().unwrap_or("").trim().to_string();
+        let class = if p.starts_with("livelock") { "livelock" } else { "panic" };
+        return Some((class.into(), format!("{class}:{site}"), p.clone()));
+    }
+    let o = &obs.outcome;
+    if o.budget_exhausted {
+        return Some((
+            "budget".into(),
+            "budget".into(),
+            format!("step budget exhausted after {} steps", o.steps),
+        ));
+    }
+    let alive: Vec<String> = o
+        .procs
+        .iter()
+        .filter(|p| p.state == "running" || p.state.starts_with("stopped"))
+        .map(|p| format!("pid {} ({})", p.pid, p.state))
+        .collect();
+    if o.stalled || !o.main_done || !alive.is_empty() {
+        return Some((
+            "deadlock".into(),
+            "deadlock".into(),
+            format!(
+                "no runnable process and no timer, but unfinished: {} (main_done={})",
+                alive.join(", "),
+                o.main_done
+            ),
+        ));
+    }
+    None
 }
